@@ -102,7 +102,7 @@ Definition edge_copy_ok (pp : option (graph * graph)) (mol : graph) (k : Z) (F :
   let '(a, b, d) := e in
   match locate1 mol k F a, locate1 mol k F b with
   | Some u, Some v =>
-      if Z.eqb u v then true else
+      if Z.eqb u v then Z.eqb a b else     (* two DIFFERENT template atoms on one fine atom: the internal bond is gone *)
       has_edge mol u v
       && (opt_val_eqb (aget (S "order") d) (edge_get mol u v (S "order")) || arom_changed pp k F a b
           || match node_attrs mol u, node_attrs mol v with Ok x, Ok y => shared x || shared y | _, _ => false end)
@@ -135,6 +135,7 @@ Definition c02_copy_code (aa : bool) (pp : option (graph * graph)) (fd : fragdic
                   end
         | Some (F, tmpl) =>
             if negb (forallb (node_copy_ok aa mol (nk mn) F) tmpl) then 4%nat
+            else if negb (nodupb (flat_map (fun tn => match locate1 mol (nk mn) F (nk tn) with Some n => [n] | None => [] end) tmpl)) then 4%nat
             else if negb (forallb (edge_copy_ok pp mol (nk mn) F) (edges_data tmpl)) then 5%nat
             else if negb (no_extra_edge mol tmpl (nk mn) F) then 5%nat
             else if negb (fragname_reported mol (nk mn) F) then 7%nat
